@@ -38,12 +38,47 @@ class Ctx:
         self.exc = M("exceptions")
         self._atom_cache0 = dict(self.gr._PROCESS_ATOM_CACHE) if hasattr(self.gr, "_PROCESS_ATOM_CACHE") else None
         self._presets0 = {k: dict(v) for k, v in self.bc._PRESET_CONSTRAINTS.items()}
+        # generic snapshot of every module-level mutable container of the package (whatever it is called):
+        # restored in place before every path, so that re-execution is deterministic also for state the harness does not know by name
+        self._globals0 = []
+        for mname, mod in list(sys.modules.items()):
+            if mod is None or not (mname == "selfies" or mname.startswith("selfies.")):
+                continue
+            for nm, obj in list(vars(mod).items()):
+                if nm.startswith("__") or not isinstance(obj, (dict, list, set)):
+                    continue
+                if isinstance(obj, dict):
+                    snap = dict(obj)
+                elif isinstance(obj, list):
+                    snap = list(obj)
+                else:
+                    snap = set(obj)
+                self._globals0.append((mod, nm, obj, snap))
         self._default_obj = self.bc._PRESET_CONSTRAINTS.get("default")
         self.stubs = list(symstr.WRAPPED) + ["injected names: " + ", ".join(sorted(symstr.INJECTED))]
 
     # -- per-path reset of module-level mutable state
+    def _restore_globals(self):
+        for mod, nm, obj, snap in self._globals0:
+            try:
+                if isinstance(obj, dict):
+                    if len(obj) != len(snap) or any(k not in obj or obj[k] is not v for k, v in snap.items()):
+                        dict.clear(obj)
+                        dict.update(obj, snap)
+                elif isinstance(obj, list):
+                    if len(obj) != len(snap) or any(a is not b for a, b in zip(obj, snap)):
+                        obj[:] = snap
+                elif obj != snap:
+                    obj.clear()
+                    obj.update(snap)
+                if vars(mod).get(nm) is not obj:
+                    setattr(mod, nm, obj)
+            except Exception:  # noqa
+                pass
+
     def reset(self, table=None):
         gr, bc, mg = self.gr, self.bc, self.mg
+        self._restore_globals()
         if self._atom_cache0 is not None:
             c = gr._PROCESS_ATOM_CACHE
             dict.clear(c)
